@@ -11,7 +11,6 @@
 #endif
 #define KK ((uint8_t)VERIF_K)
 
-/* tentative definition; completed by the initialised definition in isa.c */
 static const InstructionInfo instruction_table[256];
 #include "spec_isa.h"
 
@@ -78,40 +77,17 @@ __CPROVER_requires(__CPROVER_is_fresh(buf, 8))
 __CPROVER_assigns()
 __CPROVER_ensures(*(uint64_t *)&__CPROVER_return_value == spec_le(buf, 8));
 
-/* ---- contracts of the public codec, for opcode byte KK ---- */
-
-/* The buffer object is made exactly min(buf_size, spec_len(KK)) bytes long, so
- * that any access at or beyond the instruction's length is an out-of-bounds
- * access for CBMC: "touches only buf[0..len)" is part of the obligation. */
-uint32_t isa_encode(const DecodedInstruction *instr, uint8_t *buf, size_t buf_size)
-__CPROVER_requires(VERIF_FRESH(instr, sizeof(*instr)))
-__CPROVER_requires(instr->opcode == KK)
-__CPROVER_requires(VERIF_FRESH(buf, MINSZ(buf_size, (size_t)spec_len(KK))))
-__CPROVER_assigns(__CPROVER_object_whole(buf))
-__CPROVER_ensures((__CPROVER_return_value == 0) ==
-                  (!SPEC_DEFINED(KK) || buf_size < spec_len(KK)))
-__CPROVER_ensures(__CPROVER_return_value != 0 ==>
-                  (__CPROVER_return_value == spec_len(KK) && spec_image_ok(instr, buf, KK)));
-
-uint32_t isa_decode(const uint8_t *buf, size_t buf_size, DecodedInstruction *out)
-__CPROVER_requires(VERIF_FRESH(buf, MINSZ(buf_size, (size_t)spec_len(KK))))
-__CPROVER_requires(buf_size == 0 || buf[0] == KK)
-__CPROVER_requires(VERIF_FRESH(out, sizeof(*out)))
-__CPROVER_assigns(__CPROVER_object_whole(out))
-__CPROVER_ensures((__CPROVER_return_value == 0) ==
-                  (buf_size == 0 || !SPEC_DEFINED(KK) || buf_size < spec_len(KK)))
-__CPROVER_ensures(__CPROVER_return_value != 0 ==>
-                  (__CPROVER_return_value == spec_len(KK) && spec_decoded_ok(out, buf, KK)));
-
-const InstructionInfo *isa_get_info(uint8_t opcode)
-__CPROVER_assigns()
-__CPROVER_ensures((__CPROVER_return_value == NULL) == (instruction_table[opcode].name == NULL))
-__CPROVER_ensures(__CPROVER_return_value == NULL ||
-                  __CPROVER_return_value == &instruction_table[opcode]);
-
-uint32_t isa_operand_size(OperandType type)
-__CPROVER_assigns()
-__CPROVER_ensures(__CPROVER_return_value == spec_opsize(type));
+/* ---- contracts of the public codec, instantiated for opcode byte KK ---- */
+#define ISA_KK_ENC KK
+#define ISA_KK_DEC KK
+#define ISA_REQ_ENC (instr->opcode == KK)
+#define ISA_REQ_DEC (buf_size == 0 || buf[0] == KK)
+#define ISA_PTR_R(p, n) VERIF_FRESH(p, n)
+#define ISA_PTR_W(p, n) VERIF_FRESH(p, n)
+#define ISA_PTR_R1(p, n) 1
+#define ISA_SEP(p, q) 1   /* is_fresh already makes the objects distinct */
+#define ISA_ASSIGNS_ENC __CPROVER_object_whole(buf)   /* the object IS buf[0..min(buf_size,len)) */
+#include "isa_contracts.h"
 
 /* ===================== the real code, verbatim ===================== */
 #include "nanoisa/isa.c"
